@@ -23,6 +23,7 @@ RULE += (' Also: a callable whose first result is plain and whose later results 
 RULE += (' Also: iter(callable, sentinel) asked again after its end stays ended and does not call the callable; an identical sentinel object that cannot be compared at all.')
 RULE += (' Also: iter(callable, None) over values that consider themselves equal to None.')
 RULE += (' Also: zip(strict=<true object that is not True>) is strict.')
+RULE += (' Also: starmap argument records that offer both iteration protocols are unpacked synchronously.')
 ASSUMPTIONS = ["the stdlib of the running interpreter (3.12) is the reference",
                "documented deviations encoded: accumulate([]) without initial raises TypeError; tee handle indexable",
                "batched(strict=True) reference = itertools.batched + ValueError on a short batch (3.13 semantics)"]
